@@ -8,6 +8,34 @@ let handle (toks : string list) : string =
   | ["crc32c"; h; o] -> hex_of_bytes (crc32c (bytes_of_hex h) (o = "big"))
   | ["s_crc16"; h] -> hex_of_bytes (s_crc16 (bytes_of_hex h))
   | ["s_crc32c"; h; o] -> hex_of_bytes (s_crc32c (bytes_of_hex h) (o = "big"))
+  | "cell_info" :: rest ->
+    let (ns, _) = parse_dag rest in
+    (match build_dag ns with
+     | Err e -> "err " ^ err_name e
+     | Ok ks ->
+       let k = ks.(Array.length ks - 1) in
+       let lv = [0;1;2;3] in
+       let gh = List.map (fun l -> show_res_c hex_of_bytes (get_hash k (n_of_int l))) lv in
+       let gd = List.map (fun l -> show_res_c dec_of_n (get_depth k (n_of_int l))) lv in
+       Printf.sprintf "ok mask=%d hashes=%s depths=%s gh=%s gd=%s repr=%s pyhash=%s"
+         (int_of_n (k_mask k)) (commas hex_of_bytes (k_hashes k)) (commas dec_of_n (k_depths k))
+         (String.concat "," gh) (String.concat "," gd)
+         (show_res_c hex_of_bytes (repr_hash_sha k)) (hex_of_n (cell_pyhash k)))
+  | "s_cell_info" :: rest ->
+    let (ns, _) = parse_dag rest in
+    let ts = tree_of_dag ns in
+    let t = ts.(Array.length ts - 1) in
+    let lv = [0;1;2;3] in
+    Printf.sprintf "mask=%d gh=%s gd=%s"
+      (int_of_n (s_mask t))
+      (String.concat "," (List.map (fun l -> hex_of_bytes (fst (s_hd_sha t (nat_of_int l)))) lv))
+      (String.concat "," (List.map (fun l -> dec_of_n (snd (s_hd_sha t (nat_of_int l)))) lv))
+  | "s_ord_info" :: rest ->
+    let (ns, _) = parse_dag rest in
+    let ts = tree_of_dag ns in
+    let t = ts.(Array.length ts - 1) in
+    Printf.sprintf "hash=%s depth=%s" (hex_of_bytes (s_hash_sha t)) (dec_of_n (s_depth t))
+  | ["sha256"; h] -> hex_of_bytes (sha256 (bytes_of_hex h))
   | _ -> "?badop"
 
 let () =
